@@ -2137,11 +2137,22 @@ theorem handleHeaderFrame_cases (s : Srv) (st : Strm) (fr : Frame.Frame) :
     ∃ (bs eh : Bool) (frag : Bytes) (st0 : Strm),
       handleHeaderFrame s st fr = fieldLoop ((st.prevHdr ++ frag).length + 1) s st0 bs eh 0 (st.prevHdr ++ frag) ∧
       st0.view = st.view := by
-  simp only [handleHeaderFrame]
-  repeat' split
-  all_goals first
-    | (left; simp; done)
-    | (right; exact ⟨_, _, _, _, rfl, rfl⟩)
+  -- `notLast`: a trailer section without END_STREAM (answered with a stream error once it has been decoded)
+  cases hnl : (st.headersFinished && !Frame.hasFlag fr.flags Gen.c_FlagEndStream)
+  · simp only [handleHeaderFrame, hnl, Bool.false_and, Bool.false_eq_true, if_false]
+    repeat' split
+    all_goals first
+      | (left; simp; done)
+      | (right; exact ⟨_, _, _, _, rfl, rfl⟩)
+  · have hF : st.headersFinished = true := by revert hnl; cases st.headersFinished <;> simp
+    cases hH : Frame.hasFlag fr.flags Gen.c_FlagEndHeaders
+    · left; simp [handleHeaderFrame, hnl, hH]
+    · simp only [handleHeaderFrame, hH, hF, Bool.true_and, Bool.not_true, Bool.and_false, Bool.false_eq_true,
+        if_false, if_true]
+      repeat' split
+      all_goals first
+        | (left; simp; done)
+        | (right; exact ⟨_, _, _, _, rfl, rfl⟩)
 
 /-- the view after a HEADERS / CONTINUATION frame that was accepted: the fold of `viewUpd` over the fields decoded
 from `prevHdr ++ fragment` -/
